@@ -515,7 +515,14 @@ func pickResponseCompression(sc *Scenario, v *BackendView) string {
 
 func (b *Backend) rawMsg(i int) bool { return i < len(b.MsgRaw) && b.MsgRaw[i] }
 
+// codeRawNone: the error carries no code at all (Connect: an error object without "code"; gRPC: an
+// empty grpc-status value; REST: a status body without "code").
+const codeRawNone = "<none>"
+
 func grpcStatusText(b *Backend) string {
+	if b.CodeRaw == codeRawNone {
+		return ""
+	}
 	if b.CodeRaw != "" {
 		return b.CodeRaw
 	}
@@ -587,7 +594,7 @@ func buildResponse(sc *Scenario, v *BackendView) *builtResponse {
 			}
 		}
 		if b.CodeRaw != "" {
-			st.Set("Grpc-Status", b.CodeRaw)
+			st.Set("Grpc-Status", grpcStatusText(b))
 		}
 		if b.Kind == "trailers_only" {
 			for k, vals := range st {
@@ -658,6 +665,9 @@ func buildResponse(sc *Scenario, v *BackendView) *builtResponse {
 				var e map[string]any
 				_ = json.Unmarshal(connectErrorJSONFor(errSpec), &e)
 				e["code"] = connectRawCode(b.CodeRaw)
+				if b.CodeRaw == codeRawNone {
+					delete(e, "code") // an error object without a code at all
+				}
 				end["error"] = e
 			}
 		}
@@ -685,6 +695,9 @@ func buildResponse(sc *Scenario, v *BackendView) *builtResponse {
 				var e map[string]any
 				_ = json.Unmarshal(body, &e)
 				e["code"] = connectRawCode(b.CodeRaw)
+				if b.CodeRaw == codeRawNone {
+					delete(e, "code")
+				}
 				body, _ = json.Marshal(e)
 			}
 			if b.CompressError && comp != "" {
@@ -757,6 +770,30 @@ func buildResponse(sc *Scenario, v *BackendView) *builtResponse {
 	return out
 }
 
+// presetResponseHeaders: what a handler that prepares its response headers up front (connect-go does
+// so in NewConn, before the first Receive) has put into the header map by the time it reads the
+// request: the content type and the encodings of its own protocol. writeResponse later overwrites them.
+var presetKeys = []string{"Content-Type", "Content-Encoding", "Accept-Encoding", "Connect-Content-Encoding", "Connect-Accept-Encoding", "Grpc-Encoding", "Grpc-Accept-Encoding"}
+
+func presetResponseHeaders(sc *Scenario, w http.ResponseWriter, r *http.Request) {
+	if sc.Backend.Kind == "http_status" || sc.Backend.Kind == "raw" {
+		return
+	}
+	pv := &BackendView{Snap: snapshotRequest(r), Header: r.Header.Clone(), EscapedPath: r.URL.EscapedPath()}
+	classifyBackendRequest(sc, pv, r)
+	if pv.MI == nil {
+		return
+	}
+	ok := *sc
+	ok.Backend.Kind, ok.Backend.Err, ok.Backend.Fault = "ok", nil, nil
+	resp := buildResponse(&ok, pv)
+	for _, k := range presetKeys {
+		if vals, has := resp.Header[k]; has {
+			w.Header()[k] = append([]string(nil), vals...)
+		}
+	}
+}
+
 func respond(sc *Scenario, v *BackendView, w http.ResponseWriter) {
 	respondWithBody(sc, v, w, nil)
 }
@@ -797,6 +834,11 @@ func respondRaw(sc *Scenario, w http.ResponseWriter) {
 func writeResponse(sc *Scenario, resp *builtResponse, w http.ResponseWriter) {
 	b := &sc.Backend
 	h := w.Header()
+	if b.EarlyHeaders {
+		for _, k := range presetKeys {
+			h.Del(k)
+		}
+	}
 	for k, vals := range resp.Header {
 		for _, val := range vals {
 			h.Add(k, val)
